@@ -50,6 +50,71 @@ def lost_update_on_copy(prog, fn):
             yield n, muts[0]
 
 
+def lost_update_on_local_copy(prog, fn, classes=("node", "face")):
+    """A local of class type (no reference, no pointer, not const) that is initialised as a copy of an element of a container / of
+    another object, mutated through a non-const member call, and never handed on (passed, returned, assigned from, stored): the
+    mutation is applied to a temporary.  Typical slip: `node& a = x[i], b = x[j];` - only `a` is a reference.
+    Yields (Var, mutation node)."""
+    if not isinstance(fn.get("body"), dict):
+        return
+    for v in walk(fn["body"]):
+        if v.get("k") != "Var" or not isinstance(v.get("init"), dict) or v.get("inlined_param"):
+            continue
+        t = (v.get("t") or "").strip()
+        if t not in classes:
+            continue
+        init = strip(v["init"])
+        # a copy of an existing object: the initialiser is a copy construction from an lvalue (subscript / member / call returning a reference)
+        src = init
+        while src.get("k") in ("CXXConstructExpr", "ImplicitCastExpr", "MaterializeTemporaryExpr", "ExprWithCleanups") and len([c for c in src.get("c", []) if isinstance(c, dict)]) == 1:
+            src = strip([c for c in src["c"] if isinstance(c, dict)][0])
+        if src.get("k") not in ("CXXOperatorCallExpr", "ArraySubscriptExpr", "MemberExpr", "DeclRefExpr", "CXXMemberCallExpr", "UnaryOperator"):
+            continue
+        did = v.get("did")
+        fi = prog.index(fn)
+        muts = [m for m in walk(fn["body"]) if m.get("k") == "CXXMemberCallExpr" and not m.get("cconst") and strip(call_obj(m) or {}).get("k") == "DeclRefExpr" and (strip(call_obj(m)).get("ref") or {}).get("did") == did]
+        if not muts:
+            continue
+        first = min(fi.order[id(m)] for m in muts)
+        # a copy declared outside a loop in which it is modified lives across the iterations: a mention anywhere in that loop may see
+        # the state left by an earlier iteration
+        v_loops = {id(l) for l, _s, _c in fi.ancestors(v) if l.get("k") in ("ForStmt", "WhileStmt", "CXXForRangeStmt", "DoStmt")}
+        m_loops = [l for m in muts for l, _s, _c in fi.ancestors(m) if l.get("k") in ("ForStmt", "WhileStmt", "CXXForRangeStmt", "DoStmt") and id(l) not in v_loops]
+        if m_loops:
+            first = min(first, min(fi.order[id(l)] for l in m_loops))
+        # is the modified copy observed afterwards?  any mention after the first mutation that is not itself the object of a
+        # member call on the copy (a further mutation, or a const read whose result could carry the new state: counted as observed)
+        observed = []
+        for x in walk(fn["body"]):
+            if x.get("k") == "DeclRefExpr" and (x.get("ref") or {}).get("did") == did and fi.order.get(id(x), -1) > first:
+                p_ = fi.parent.get(id(x), (None, None))[0]
+                while p_ is not None and p_.get("k") in ("ImplicitCastExpr", "ParenExpr"):
+                    p_ = fi.parent.get(id(p_), (None, None))[0]
+                gp = fi.parent.get(id(p_), (None, None))[0] if p_ is not None else None
+                if p_ is not None and p_.get("k") == "MemberExpr" and gp is not None and gp.get("k") == "CXXMemberCallExpr" and not gp.get("cconst") and any(gp is m for m in muts):
+                    continue        # the object of another mutation
+                observed.append(x)
+        if not observed:
+            yield v, muts[0]
+
+
+def _only_read_through_const_member(e, did):
+    """every mention of the variable inside e is the object of a const member call / a field read"""
+    parents = {}
+    for x in walk(e):
+        for c in x.get("c", []) or []:
+            if isinstance(c, dict):
+                parents[id(c)] = x
+    for x in walk(e):
+        if x.get("k") == "DeclRefExpr" and (x.get("ref") or {}).get("did") == did:
+            p = parents.get(id(x))
+            while p is not None and p.get("k") in ("ImplicitCastExpr", "ParenExpr"):
+                p = parents.get(id(p))
+            if p is None or p.get("k") != "MemberExpr":
+                return False
+    return True
+
+
 def _accumulates(stmt, did):
     """statement of the form V = V op e / V += e / V.translate(e) for variable did"""
     e = strip(stmt)
